@@ -305,14 +305,7 @@ func (ex *Exec) addrOfExpr(st *State, xx ast.Expr, pty types.Type, k func(*State
 					// only ghost state may hang off it)
 					ex.expr(st, in.X, func(st *State, base Val) {
 						ex.nilCheck(st, base, in.Pos(), func(st *State) {
-							fn := sym("fieldaddr_" + ex.w.typeString(ex.typeOf(st.frame, in.X)) + "." + sel.Obj().Name())
-							if !ex.w.declared[fn] {
-								ex.w.declFun(fn, []*Sort{sRef}, sRef)
-								inv := sym("fieldaddr_inv_" + ex.w.typeString(ex.typeOf(st.frame, in.X)) + "." + sel.Obj().Name())
-								ex.w.declFun(inv, []*Sort{sRef}, sRef)
-								ex.w.axioms = append(ex.w.axioms, fmt.Sprintf("(forall ((r Ref)) (! (and (= (%s (%s r)) r) (not (= (%s r) nil))) :pattern ((%s r))))", inv, fn, fn, fn))
-							}
-							k(st, Val{T: sApp(fn, base.T), S: sRef, Go: pty})
+							k(st, Val{T: ex.fieldAddr(base.T, ex.typeOf(st.frame, in.X), sel.Obj().Name()), S: sRef, Go: pty})
 						})
 					})
 					return
